@@ -28,6 +28,42 @@ def fingerprint(path):
     return hashlib.sha1(src.encode()).hexdigest()[:16]
 
 
+def _strip(src):
+    src = re.sub(r"/\*.*?\*/", "", src, flags=re.S)
+    return re.sub(r"//[^\n]*", "", src)
+
+
+def constants(path):
+    """integer constants (>= 8) that occur in a Go file: literals and `a << b` shifts of literals"""
+    try:
+        src = _strip(open(path, encoding="utf-8", errors="replace").read())
+    except OSError:
+        return []
+    src = re.sub(r'"(?:\\.|[^"\\])*"|`[^`]*`', '""', src)          # string literals out
+    vals = set()
+    for a, b in re.findall(r"\b(\d+)\s*<<\s*(\d+)\b", src):
+        if int(b) < 40:
+            vals.add(int(a) << int(b))
+    for m in re.findall(r"\b(0[xX][0-9a-fA-F]+|\d+)\b", src):
+        vals.add(int(m, 0))
+    return sorted(v for v in vals if 8 <= v <= 1 << 22)
+
+
+def new_constants(prop, repo):
+    """integer constants that appear in the property's packages now but not in the recorded source: thresholds a
+    change introduced -- they steer the sizes of the bulk generators (never a verdict)"""
+    try:
+        want = json.load(open(FILE)).get("#constants", {})
+    except OSError:
+        return []
+    dirs = {os.path.dirname(f) for f in anchors(prop)}
+    out = set()
+    for f in source_files(repo):
+        if os.path.dirname(f) in dirs:
+            out |= set(constants(os.path.join(repo, f))) - set(want.get(f, []))
+    return sorted(out)
+
+
 def source_files(repo):
     """all non-test Go files of the repository (hooks under the verif build tag excluded)"""
     out = []
@@ -47,7 +83,7 @@ def changed(prop, repo):
     except OSError:
         return []
     dirs = {os.path.dirname(f) for f in anchors(prop)}
-    cand = {f for f in set(want) | set(source_files(repo)) if os.path.dirname(f) in dirs}
+    cand = {f for f in (set(want) - {"#constants"}) | set(source_files(repo)) if os.path.dirname(f) in dirs}
     return sorted(f for f in cand if fingerprint(os.path.join(repo, f)) != want.get(f))
 
 
@@ -55,7 +91,9 @@ if __name__ == "__main__":
     if len(sys.argv) > 1 and sys.argv[1] == "write":
         repo = sys.argv[2] if len(sys.argv) > 2 else "/repo"
         files = source_files(repo)
-        json.dump({f: fingerprint(os.path.join(repo, f)) for f in files}, open(FILE, "w"), indent=1)
+        d = {f: fingerprint(os.path.join(repo, f)) for f in files}
+        d["#constants"] = {f: constants(os.path.join(repo, f)) for f in files}
+        json.dump(d, open(FILE, "w"), indent=1)
         print("fingerprints.json:", len(files), "files")
     else:
         for line in open(os.path.join(VERIF, "properties.jsonl")):
